@@ -62,7 +62,7 @@ def streamWriteUpdate (p : WSt) (code : Nat) : Step ((SRes × WSt) ⊕ WSt) :=
   match RetCode.decode code with
   | none => .panic "unknown return code" []
   | some .blocked => .ok (.inr p) []
-  | some (.dropped 0) => .ok (.inl (.dropped, p)) []
+  | some (.dropped 0) => .ok (.inl (.dropped, { p with wr := { p.wr with done := true } })) []
   | some (.cancelled 0) => .ok (.inl (.cancelled, p)) []
   | some (.completed amt) => (p.buf.advance amt).bind fun b => .ok (.inl (.complete amt, { p with buf := b })) []
   | some (.cancelled amt) => (p.buf.advance amt).bind fun b => .ok (.inl (.complete amt, { p with buf := b })) []
@@ -127,7 +127,7 @@ def streamReadUpdate (p : RSt) (code : Nat) : Step ((SRes × RSt) ⊕ RSt) :=
   match RetCode.decode code with
   | none => .panic "unknown return code" []
   | some .blocked => .ok (.inr p) []
-  | some (.dropped 0) => .ok (.inl (.dropped, { p with slab := false, mem := [] })) p.freeSlab
+  | some (.dropped 0) => .ok (.inl (.dropped, { p with slab := false, mem := [], rd := { p.rd with done := true } })) p.freeSlab
   | some (.cancelled 0) => .ok (.inl (.cancelled, { p with slab := false, mem := [] })) p.freeSlab
   | some (.completed amt) => fin amt false
   | some (.cancelled amt) => fin amt false
